@@ -562,7 +562,19 @@ def gen_pool(rng, m, k=None):
             cands.append(f)
     cands = [float(repr(round(c, 6))) for c in cands[:max(k, len(cands))]]
     rng.shuffle(cands)
-    return cands[:5], probes
+    cands = cands[:5]
+    if rng.random() < 0.2:
+        # a near-duplicate of one pool entry: 'unchanged within tolerance'
+        # short-cuts only show between frequencies that are almost equal
+        d = rng.choice([1e-3, 1e-4, 2e-5, 5e-6, 1e-6, 2e-7]) * rng.choice([1, -1])
+        src = rng.randrange(len(cands))
+        nd = float(repr(round(cands[src] * (1 + d), 10)))
+        if len(cands) >= 5:
+            cands[(src + 1) % len(cands)] = nd
+        else:
+            cands.insert(rng.randrange(len(cands) + 1), nd)
+        probes.append('near_duplicate_frequency')
+    return cands, probes
 
 
 def gen_far(rng):
@@ -826,8 +838,12 @@ def gen_cli_task(rng, maxops=8, env=None, kinds=None, model=None, pool=None):
             if f0 + (steps - 1) * inc <= 0.2:
                 inc = abs(inc)
             if c['probes'] and len(c['pool']) > 1:
-                inc = float(repr(round(c['pool'][1] - f0, 6)))
+                inc = float(repr(round(c['pool'][1] - f0, 10)))
                 steps = 2
+            elif rng.random() < 0.15:
+                # very fine sweep
+                inc = float(repr(round(f0 * rng.choice([1e-4, 2e-5, 5e-6, 1e-6]) * rng.choice([1, 1, -1]), 10)))
+                steps = rng.choice([2, 3, 5])
             base = [x for x in c['argv'] if x != '-T']
             ops.append(['SWEEP', base, inc, steps, rng.choice([0, 0, 1, 2, 3])])
         elif r < 0.9:
@@ -1134,7 +1150,7 @@ def gen_long_cli_task(rng, steps, kind):
     if rng.random() < 0.3:
         base += ['--option', 'none']
     if kind == 'sweep':
-        inc = rng.choice([0.05, 0.01, 0.1])
+        inc = rng.choice([0.05, 0.01, 0.1, float(repr(round(f0 * 7e-6, 10))), float(repr(round(f0 * 1e-4, 10)))])
         ops = [['SWEEP', base, inc, steps]]
     else:
         other = ['-f', repr(f0 * 1.1)] + m.argv() + ['--option', 'none', '--output-cmdline', 'long.txt']
